@@ -183,6 +183,7 @@ def jobs(L, timeout):
         out.append(core.Job('C15_UncompressedFile_' + name, src, route='harness', flags=FLAGS, functions=functions,
                             unwind=2 * L + 3, canary_ids=['harness.assertion.%d' % (nassert + 1)], timeout=timeout,
                             bounded='at most %d containers held at once; every size/position/length symbolic' % L))
+        if name in ('read', 'write'): out[-1].weight = 10
     # ---------------- read
     b = '''    __CPROVER_assume(X >= 0);
     /* the requested range is backed by held containers: not dropped, and written (the wait predicate of a non-aborted read) */
